@@ -431,6 +431,34 @@ def check_logic_order(run):
                         run.fail({"subcheck": "order:logic-transitive"}, {"a": str(a), "b": str(b), "c": str(c)},
                                  "%s <= %s <= %s but not %s <= %s" % (a, b, c, a, c))
     run.cls("logic-pairs", len(logics) ** 2)
+    # what a named logic declares must be what its SMT-LIB name says (the name is what a script is labelled with)
+    import re
+    for a in sorted(set(L.LOGICS) | set(L.PYSMT_LOGICS), key=str):
+        m = re.fullmatch(r"(QF_)?(BOOL|(?:(AX|A)?(UF)?(BV)?(S)?(IDL|RDL|[LN](?:IRA|IA|RA))?))(\*)?(t)?", str(a))
+        run.case(key=("name", str(a)), nontrivial=True)
+        run.cls("logic-name-vs-declaration")
+        if not m:
+            run.discard("logic-name-not-understood")
+            continue
+        qf, _body, ax, uf, bv, st_, ar, star, ct = m.groups()
+        want = dict.fromkeys(FIELDS, False)
+        want.update(linear=True, arrays=bool(ax), arrays_const=bool(star), uninterpreted=bool(uf), bit_vectors=bool(bv),
+                    strings=bool(st_), custom_type=bool(ct))
+        if ar == "IDL":
+            want.update(integer_arithmetic=True, integer_difference=True)
+        elif ar == "RDL":
+            want.update(real_arithmetic=True, real_difference=True)
+        elif ar:
+            want.update(linear=ar[0] == "L", integer_arithmetic="I" in ar[1:], real_arithmetic=ar.endswith("RA"))
+        diffs = [(f, getattr(a.theory, f), want[f]) for f in FIELDS if getattr(a.theory, f) != want[f]]
+        if st_:
+            # (the string logics have no official definition: whether they include free function symbols is not judged)
+            diffs = [d for d in diffs if d[0] != "uninterpreted"]
+        if bool(qf) != a.quantifier_free:
+            diffs.append(("quantifier_free", a.quantifier_free, bool(qf)))
+        if diffs:
+            run.fail({"subcheck": "order:logic-name-vs-declaration"}, {"a": str(a)},
+                     "the logic named %s declares %s" % (a, ", ".join("%s=%r (its name says %r)" % d for d in diffs)))
     # the quantified version of a logic ("closest supported logic" of the same theory with quantifiers): a supported,
     # quantified logic at least as expressive - or no logic at all
     from pysmt.exceptions import NoLogicAvailableError
